@@ -18,7 +18,8 @@ Record env := Env {
   e_urls : list (str * option str);       (* dst token -> url.Parse(d).String(), None = error *)
   e_badglobs : list str;                  (* paths glob.Compile rejects *)
   e_wlits : list (str * outcome wt);      (* weight token -> strconv.ParseFloat (exact value) *)
-  e_badhosts : list str                   (* normalised host keys glob.Compile rejects *)
+  e_badhosts : list str                   (* normalised host keys glob.Compile rejects (none for a table
+                                             NewTable returns since c9fb527; kept as a tripwire) *)
 }.
 Fixpoint assoc {A} (k : str) (l : list (str * A)) : option A :=
   match l with
@@ -105,20 +106,13 @@ Definition edge_wt (w : wt) : bool :=
   | WZ => false
   | WP _ e | WN _ e => negb (f64_finite (wt_f64 w)) || (e <? -1052)%Z || (948 <? e)%Z
   end.
-Definition region_of_defs (e : env) (ds : list def) (bad_host : bool) : option N :=
+Definition region_of_defs (e : env) (ds : list def) : option N :=
   match region_of_routes (reached (canon_of e) (glob_of e) [] ds) with
   | Some k => Some k
-  | None => if bad_host then Some 4
-            else if existsb (fun d => negb (f64_finite (wt_f64 (d_w d)))) ds then Some 1
+  | None => if existsb (fun d => negb (f64_finite (wt_f64 (d_w d)))) ds then Some 1
             else if existsb (fun d => edge_wt (d_w d)) ds then Some 3
             else None
   end.
-Definition bad_host_of (e : env) (o : outcome btable) : bool :=
-  match o with
-  | Ok bt => F_C02_bad_host_glob (hostglob_of e) bt false || F_C02_bad_host_glob (hostglob_of e) bt true
-  | _ => false
-  end.
-
 (* [verdict], with the region computed only where it is consulted *)
 Definition verdict_lazy (same spec nontrivial : bool) (region : unit -> option N) : N :=
   if same && spec then (if nontrivial then v_agree else v_agree_trivial)
@@ -157,7 +151,7 @@ Definition check_build (e : env) (bo : outcome btable) (ds : outcome (list def))
                 end in
   let spec := not_panic impl && forallb (fun ql => not_panic (snd ql)) lookups in
   verdict_lazy (same_b && same_l) spec nontrivial
-    (fun _ => match ds with Ok l => region_of_defs e l (bad_host_of e bo) | _ => None end).
+    (fun _ => match ds with Ok l => region_of_defs e l | _ => None end).
 
 Definition text_of (texts : list str) (i : nat) : str := nth i texts [].
 
@@ -204,7 +198,7 @@ Definition check_case (c : case) : N :=
                | (si, mi, _) :: cs' =>
                    let t := Watch.next_text (text_of texts si) (text_of texts mi) in
                    match parse (pweight_of e) t with
-                   | Ok l => match region_of_defs e l false with
+                   | Ok l => match region_of_defs e l with
                              | Some k => Some k
                              | None => first_region cs'
                              end
